@@ -225,7 +225,7 @@ def flatten_function(fj, by_name, helpers, types, depth=0, counter=None):
             # head block: what preceded the call, then the parameter bindings
             head_elems = b["elems"][:ei]
             for p, a in zip(g["params"], e.get("a", [])):
-                head_elems.append({"k": "decl", "id": fresh(), "loc": loc, "vars": [{"n": p["n"], "t": p["t"], "init": a}]})
+                head_elems.append({"k": "decl", "id": fresh(), "loc": loc, "vars": [{"n": p["n"], "t": p["t"], "init": a, "bind": True}]})
             if has_val:
                 head_elems.append({"k": "decl", "id": fresh(), "loc": loc, "vars": [{"n": retvar, "t": gj0["ret"], "init": None}]})
             for k in ("term", "cond", "term_loc", "noreturn", "sc_forced"):
